@@ -129,6 +129,11 @@ def has_or(f):
 
 
 def run(ctx):
+    _run_main(ctx)
+    offline_auth_keeps_latest_token(ctx)
+
+
+def _run_main(ctx):
     F = ctx.facts
     ctx.explanation = ("K4: the boolean returned by unix_user_authorise is extracted from HIR as a template and must be `false` or a pure conjunction containing "
                        "(names ∪ uuids of the token's groups ∩ pam_allow_groups).count() > 0 and token.valid; Resolver::pam_account_allowed passes the answer through.")
@@ -262,3 +267,57 @@ def run(ctx):
                   f"pam_account_allowed returns `{ex_s(e)[:80]}` (calls {wrappers}) which is not the unchanged answer of IdProvider::unix_user_authorise",
                   **loc(pa, node))
     ctx.floor("K4-passthrough", "results of pam_account_allowed that forward unix_user_authorise", n_pass, 1)
+
+
+# ---------------------------------------------------------------------------------------------------------------------
+# unix_user_authorise decides from the CACHED token (groups, valid). An offline password step hands back the token that
+# is then written to the cache with a fresh expiry; it must be the newest record the cache holds (`current_token`), and the
+# snapshot taken when the PAM conversation started (`session_token`) only as a fallback. Writing the snapshot back resurrects
+# group memberships / validity that a refresh in between had already removed.
+# (added after seeded change C45: new_token = session_token.clone())
+
+def offline_auth_keeps_latest_token(ctx):
+    from .lib.hir import walk, unwrap
+    R = "K4-offline-writeback-uses-latest-token"
+    f = ctx.fn(RES, "sparkle_resolver_common::<idprovider::kanidm::KanidmProvider as idprovider::interface::IdProvider>::unix_user_offline_auth_step")
+    cur = ses = None
+    for p in f["params"]:
+        if p["pat"].get("p") == "bind" and "UserToken" in p["ty"]:
+            if "Option<" in p["ty"]:
+                cur = p["pat"]["local"]
+            else:
+                ses = p["pat"]["local"]
+    if not ctx.check(cur is not None and ses is not None, R, f["fn"], "parameters", "(current_token: Option<&UserToken>, session_token: &UserToken)",
+                     "the offline step no longer receives both the latest cached token and the session snapshot (shape not understood)",
+                     file=f["file"], line=f["line"]):
+        return
+    inits = {}
+    for n in walk(f["body"]):
+        if n.get("s") == "let" and "init" in n and n["pat"].get("p") == "bind":
+            inits[n["pat"]["local"]] = n["init"]
+    sites = [n for n in walk(f["body"]) if n.get("e") == "struct" and n["path"].get("def", "").endswith("AuthResult::SuccessUpdate")]
+    ctx.floor(R, "AuthResult::SuccessUpdate sites in the offline step", len(sites), 1)
+
+    def root_recv(e, depth=0):
+        """local at the receiver end of a method chain, following let-bound locals"""
+        e = unwrap(e)
+        while isinstance(e, dict):
+            if e.get("e") == "mcall":
+                e = unwrap(e["recv"])
+            elif e.get("e") == "path" and "local" in e["res"]:
+                l = e["res"]["local"]
+                if l in inits and depth < 4 and l not in (cur, ses):
+                    return root_recv(inits[l], depth + 1)
+                return l
+            else:
+                return None
+        return None
+
+    for s in sites:
+        tok = [x["x"] for x in s["fields"] if x["f"] == "new_token"]
+        r = root_recv(tok[0]) if tok else None
+        ctx.check(r == cur, R, f["fn"], "success-token-prefers-current", "new_token = current_token.unwrap_or(session_token)…",
+                  "the token returned by a successful offline authentication is not derived from the latest cached record "
+                  f"(`current_token`) first — it starts from {'the session snapshot' if r == ses else 'something else'}: the cache is then overwritten, with a fresh "
+                  "expiry, by the copy taken when the conversation began, so a user removed from every allowed group (or whose account expired) "
+                  "in the meantime is admitted again by unix_user_authorise", file=f["file"], line=s.get("line"))
